@@ -693,6 +693,15 @@ PROBES = [
     ('fn f() { try { return 1; } finally { print("fin"); } } print(f()); try { throw 2; } catch e { print(e); }', "fin,1,2/D"),
     ('fn f(n) { while n > 0 { try { n = n - 1; if n == 1 { throw n; } } catch e { print("c"); print(e); } } return n; } print(f(3));',
      "c,1,0/D"),
+    # the bare `return;` of an initialiser inside a try block runs the finally clause and pops the handler like any return
+    ('class K { #[constructor] fn new(self, p) { self.s = 0; try { if p == 0 { return; } self.s = 1; } finally { print(p); } } } '
+     'print(K.new(8).s); try { print(K.new(0).s); throw 5; } catch e { print("late"); print(e); }', "8,1,0,0,late,5/D"),
+    ('class B { #[constructor] fn new(self) { try { return; } catch e { print(e); } finally { print("bf"); } } } '
+     '#[derive(B)] class D { #[constructor] fn new(self) { try { super.new(); return; } finally { print("df"); } } } '
+     'var d = D.new(); try { nil(); } catch e { print(type(e)); }', "bf,df,<class TypeError>/D"),
+    ('#[constructor(new)] class M { fn m(self) { try { return; } finally { print("mf"); } } #[static] fn s() { try { return; } '
+     'finally { print("sf"); } } } print(M.new().m()); print(M.s()); var l = || { try { return; } finally { print("lf"); } }; '
+     'print(l()); try { throw 1; } catch e { print(e); }', "mf,nil,sf,nil,lf,nil,1/D"),
 ] + [
     # failures RETURNED by natives (Err arm of call_native) and raised by the VM, innermost handler finally-only: the
     # finally block runs and the exception goes on to the caller's catch clause
@@ -797,9 +806,9 @@ class Deco:
         if t == "cont":
             return "continue; "
         if t == "ret":
-            return "return %d; " % s[1]
+            return "return; " if getattr(self, "bare_ret", False) else "return %d; " % s[1]
         if t == "call":
-            return "print(f%d()); " % s[1]
+            return "print(%s); " % (getattr(self, "callexpr", {}).get(s[1]) or "f%d()" % s[1])
         if t == "ifiter":
             return "if %s == %d " % (iv, s[1]) + self.block(s[2], d + 1, ev, iv, scope, decl_ok)
         if t == "loop":
@@ -812,7 +821,7 @@ class Deco:
             if hc:
                 e = "e%d" % d
                 body = self.block(s[2], d + 1, e, iv, scope, decl_ok)
-                esc = "out.push(|| %s); " % e if self.rng.random() < 0.5 else ""
+                esc = "out.push(|| %s); " % e if (self.rng.random() < 0.5 and not getattr(self, "plain", False)) else ""
                 r += "catch %s { " % e + esc + body[2:]
             if hf:
                 # without catch clause the finally block is entered one slot higher by exception: no declarations there
@@ -833,6 +842,169 @@ class Deco:
         txt = "fn f%d() { var a%d = %d; var b%d = %d; " % (k, k, 100 + k, k, 200 + k)
         txt += self.stmt(body, 0, "e", "i", scope, True, True)
         return txt + self.dump(scope) + "} "
+
+
+# ------------------------------------------------------------------------------------------------
+# function KINDS: the bodies of a program outside the classes become plain functions, block lambdas, expression lambdas
+# (around a plain function), instance methods, static methods, `#[constructor]` initialisers (bare `return;` only), an
+# initialiser reached through `super.new()`, fiber bodies - each with every return form the kind allows (`return t;`
+# or the bare `return;`).  Expected: TrySpec.eval_spec itself when every chosen kind preserves the printed values,
+# else the full reference interpreter (which must then agree with eval_spec on the plain rendering anyway).
+KINDS = ["plain", "lambda", "exprlambda", "method", "static", "ctor", "superctor", "fiber"]
+
+
+class Plain(Deco):
+    plain = True
+
+    def prologue(self, scope, decl_ok):
+        return "", []
+
+    def touch(self, scope):
+        return ""
+
+    def dump(self, scope):
+        return ""
+
+
+def render_kinds(prog, seed, force=None):
+    rng = _random.Random(seed)
+    pl = Plain(seed)
+    pl.rng = _random.Random(seed + 1)
+    pl.callexpr = {}
+    txt = ""
+    preserving = True
+    used = []
+    for k, b in enumerate(prog):
+        kind = force if (force and k == len(prog) - 1) else rng.choice(KINDS)
+        bare = kind in ("ctor", "superctor") or rng.random() < 0.25
+        used.append(kind + ("/bare" if bare else ""))
+        pl.bare_ret = bare
+        body = pl.stmt(b, 0, "e", "i", [], True, False)
+
+        if bare and has_return(b):
+            preserving = False
+        if kind == "plain":
+            txt += "fn f%d() { %s} " % (k, body)
+            pl.callexpr[k] = "f%d()" % k
+        elif kind == "lambda":
+            txt += "var f%d = || { %s}; " % (k, body)
+            pl.callexpr[k] = "f%d()" % k
+        elif kind == "exprlambda":
+            txt += "fn g%d() { %s} var f%d = || g%d(); " % (k, body, k, k)
+            pl.callexpr[k] = "f%d()" % k
+        elif kind == "method":
+            txt += "#[constructor(new)] class C%d { fn m(self) { %s} } var o%d = C%d.new(); " % (k, body, k, k)
+            pl.callexpr[k] = "o%d.m()" % k
+        elif kind == "static":
+            txt += "class C%d { #[static] fn s() { %s} } " % (k, body)
+            pl.callexpr[k] = "C%d.s()" % k
+        elif kind == "ctor":
+            txt += "class C%d { #[constructor] fn new(self) { %s} } " % (k, body)
+            pl.callexpr[k] = "C%d.new()" % k
+            preserving = False
+        elif kind == "superctor":
+            txt += ("class B%d { #[constructor] fn new(self) { %s} } #[derive(B%d)] class C%d { #[constructor] fn new(self) "
+                    "{ super.new(); print(%d); } } " % (k, body, k, k, 7000 + k))
+            pl.callexpr[k] = "C%d.new()" % k
+            preserving = False
+        else:
+            txt += "fn f%d() { var fb = Fiber.new(|| { %s}); return fb.call(); } " % (k, body)
+            pl.callexpr[k] = "f%d()" % k
+            preserving = False      # an exception does not leave the fiber: the run ends there
+    # afterwards: the handler stack must be as before - a later exception reaches THIS handler only
+    txt += 'try { print(%s); throw 9999; } catch ex { print("late"); print(ex); }' % pl.callexpr[len(prog) - 1]
+    return txt, preserving, used
+
+
+def kinds_family(ctx, results, stats, n):
+    import binascii
+    base = [r for r in results if r["wf"] and r["cls"] is None and not r["m"].endswith("/S")]
+    if not base:
+        return
+    rng = ctx.rng
+    withret = [r for r in base if has_return_prog(r["prog"]) and "6 " in r["wire"]]
+    items = []
+    for k in range(n):
+        r = rng.choice(withret if (withret and rng.random() < 0.7) else base)
+        items.append((r, rng.randrange(1 << 30), KINDS[k % len(KINDS)]))
+    rend = [render_kinds(r["prog"], sd, force) for r, sd, force in items]
+    recs = yvlib.run_harness(ctx.harness("release"), ["run - " + hx(x[0]) for x in rend], case_timeout_ms=10000)
+    nd = min(len(rend), 64)
+    drecs = yvlib.run_harness(ctx.harness("debug"), ["run - " + hx(x[0]) for x in rend[:nd]], case_timeout_ms=20000)
+    refs = [None] * len(rend)
+    if refspec_available():
+        vals = yvlib.coq_eval(["YV:SpecScripts"], ['run_case 400 [] "%s"' % binascii.hexlify(x[0].encode()).decode() for x in rend],
+                              shard_size=max(4, min(40, (len(rend) + 31) // 32)), tag="C08kinds", preamble="Open Scope string_scope.\n")
+        refs = [ref_result(v) for v in vals]
+    bad = []
+    kinds_seen = set()
+    stats["kinds_programs"] = 0
+    for i, ((r, sd, force), (src, preserving, used), rec, ref) in enumerate(zip(items, rend, recs, refs)):
+        want = None
+        if preserving:
+            # eval_spec of the skeleton + the epilogue: the call result is printed, then `late`, 9999 (or the escaped exception)
+            sp, fin = r["spec"].rsplit("/", 1)
+            want = (sp + "," if sp else "") + ("late,9999/D" if fin == "D" else "late," + fin[2:] + "/D")
+            if ref is not None and ref != want:
+                ctx.broken.append("eval_spec and the reference interpreter disagree on a kinds program: %s | %s | %s" % (src[:300], want, ref))
+        elif ref is not None:
+            want = ref
+        if want is None:
+            continue
+        stats["kinds_programs"] += 1
+        kinds_seen.update(used)
+        got = impl_result(rec)
+        gotd = impl_result(drecs[i]) if i < nd else got
+        if got != want or gotd != want:
+            bad.append({"r": r, "seed": sd, "force": force, "src": src, "want": want, "got": got if got != want else gotd + " (debug build)"})
+    stats["kinds_mismatch"] = len(bad)
+    stats["kinds_and_return_forms_seen"] = len(kinds_seen)
+    bad.sort(key=lambda b: len(b["src"]))
+    for b in bad[:3]:
+        ctx.violation("a function of another KIND (lambda / method / static / initialiser / super.new / fiber body) differs from "
+                      "the Spec (program outside the known classes)", input=b["src"], expected=b["want"], actual=b["got"],
+                      kinds_wire=b["r"]["wire"], kinds_seed=b["seed"], kinds_force=b["force"])
+
+
+def has_return_prog(prog):
+    return any(has_return(f) for f in prog)
+
+
+# ------------------------------------------------------------------------------------------------
+# the pending return value is the ONLY reference to a fresh heap value while the finally block runs and allocates:
+# "the function's result is what return computed, after finally ran".  Run with gc=always and the quarantine on (a lost
+# value shows as VERIF-UAF or a wrong print), both builds; loop counters are declared before the try (finally_local).
+_ALLOC = "while i < 40 { s = [100, i]; t = \"x${i}y\"; i = i + 1; } "
+PENDING = [
+    ('fn pair(n) { var s = nil; var t = nil; var i = 0; try { return [n, n + 1]; } finally { %s print("c"); } } '
+     'print(pair(1)); print(pair(5));' % _ALLOC, "c,[1, 2],c,[5, 6]/D"),
+    ('fn str(n) { var s = nil; var t = nil; var i = 0; try { return "a${n}b" + "c"; } finally { %s print("c"); } } '
+     'print(str(1)); print(str(22));' % _ALLOC, "c,a1bc,c,a22bc/D"),
+    ('#[constructor(new)] class P { } fn mk(n) { var s = nil; var t = nil; var i = 0; try { var p = P.new(); p.x = [n]; return p; } '
+     'finally { %s print("c"); } } print(mk(3).x); print(mk(4).x);' % _ALLOC, "c,[3],c,[4]/D"),
+    ('fn mk(n) { var s = nil; var t = nil; var i = 0; try { var k = [n, n]; return || k; } finally { %s print("c"); } } '
+     'print(mk(3)()); print(mk(4)());' % _ALLOC, "c,[3, 3],c,[4, 4]/D"),
+    ('fn mk(n) { var s = nil; var t = nil; var i = 0; try { try { throw [n]; } catch e { return [e, n]; } } finally { %s print("c"); } } '
+     'print(mk(3)); print(mk(4));' % _ALLOC, "c,[[3], 3],c,[[4], 4]/D"),
+    ('#[constructor(new)] class Q { fn m(self, n) { var s = nil; var t = nil; var i = 0; try { return (n, "t${n}"); } '
+     'finally { %s print("c"); } } } var q = Q.new(); print(q.m(1)); print(q.m(2));' % _ALLOC, "c,(1, t1),c,(2, t2)/D"),
+    ('fn mk(n) { var s = nil; var t = nil; var i = 0; try { return {n: [n]}; } catch e { print(e); } finally { %s print("c"); } } '
+     'print(mk(3)); print(mk(4));' % _ALLOC, "c,{3: [3]},c,{4: [4]}/D"),
+]
+
+
+def run_pending(ctx, stats):
+    for prof in ("release", "debug"):
+        for opts in ("gc=always", "-"):
+            recs = yvlib.run_harness(ctx.harness(prof), ["run %s %s" % (opts, hx(src)) for src, _ in PENDING], quarantine=True,
+                                     case_timeout_ms=30000)
+            for (src, want), rec in zip(PENDING, recs):
+                got = impl_result(rec) + ("/UAF" if rec.uaf else "")
+                if got != want:
+                    stats["violations"].append({"src": src, "spec": want, "impl": got + " (%s build, %s, quarantine)" % (prof, opts),
+                                                "m": None, "wire": "", "prog": None, "pending": True})
+                    break
+    stats["pending_return_heap_programs"] = len(PENDING)
 
 
 def decorate(prog, seed):
@@ -1258,6 +1430,23 @@ def run(ctx):
                           input=src, expected=ref, actual=impl, wire=ctx.replay_only["wire"], deco_seed=ctx.replay_only["deco_seed"])
         ctx.cov.update({"evaluations": 1, "distinct_nontrivial": 0, "rule": "replay", "samples": [src]})
         return
+    if ctx.replay_only and ctx.replay_only.get("kinds_seed") is not None:
+        ro = ctx.replay_only
+        rs = evaluate(ctx, [unwire(ro["kinds_wire"])], "replay", want_trace=False)
+        src, preserving, used = render_kinds(rs[0]["prog"], ro["kinds_seed"], ro.get("kinds_force"))
+        for prof in ("release", "debug"):
+            rec = yvlib.run_harness(ctx.harness(prof), ["run - " + hx(src)])[0]
+            if impl_result(rec) != ro["expected"]:
+                ctx.violation("a function of another KIND differs from the Spec", input=src, expected=ro["expected"],
+                              actual=impl_result(rec) + " (%s build)" % prof, kinds_wire=ro["kinds_wire"], kinds_seed=ro["kinds_seed"],
+                              kinds_force=ro.get("kinds_force"))
+                break
+        ctx.cov.update({"evaluations": 1, "distinct_nontrivial": 0, "rule": "replay", "samples": [src]})
+        return
+    if ctx.replay_only and ctx.replay_only.get("pending"):
+        run_pending(ctx, stats)
+        finish(ctx, stats, [])
+        return
     if ctx.replay_only and ctx.replay_only.get("big_index") is not None:
         run_big(ctx, stats)
         finish(ctx, stats, [])
@@ -1295,6 +1484,7 @@ def run(ctx):
     run_probes(ctx, stats)
     run_directed(ctx, stats)
     run_big(ctx, stats)
+    run_pending(ctx, stats)
     progs = systematic()
     nsys = len(progs)
     n_safe, n_wild = (330, 150) if quick else (7000, 3000)
@@ -1313,8 +1503,9 @@ def run(ctx):
     for r in results:
         judge(ctx, r, stats)
     refspec_compare(ctx, results[:nsys + (120 if quick else 3000)], stats, "gen")
-    closure_family(ctx, results, stats, 260 if quick else 1500)
+    closure_family(ctx, results, stats, 200 if quick else 1500)
     repl_streams(ctx, results, stats, 72 if quick else 600)
+    kinds_family(ctx, results, stats, 120 if quick else 800)
     finish(ctx, stats, results)
 
 
@@ -1371,6 +1562,8 @@ def finish(ctx, stats, results):
     for k, r in enumerate(viol[:5]):
         small = shrink(ctx, r) if (k == 0 and r.get("prog")) else r
         extra = {"input_summary": small["short"], "big_index": small["big_index"]} if small.get("short") else {}
+        if small.get("pending"):
+            extra["pending"] = True
         ctx.violation("printed trace / outcome differs from the Spec outside the known classes", input=small["src"],
                       expected=small["spec"], actual=small["impl"], model=small["m"], wire=small["wire"], **extra)
     ctx.violations[0:0] = ctx.violations[n0:]
@@ -1382,7 +1575,8 @@ def finish(ctx, stats, results):
         samples.append(deco_sample)
     stats["deco_nontrivial_count"] = len(deco_nt)
     ctx.cov.update({
-        "evaluations": stats["total"] + stats.get("deco_programs", 0) + stats.get("directed_closure_programs", 0),
+        "evaluations": stats["total"] + stats.get("deco_programs", 0) + stats.get("directed_closure_programs", 0)
+                       + stats.get("kinds_programs", 0) + stats.get("repl_snippets", 0) + stats.get("pending_return_heap_programs", 0),
         "distinct_nontrivial": len(stats["nontrivial"]) + len(deco_nt),
         "rule": "variables-and-closures family (programs outside the classes decorated with outer locals and escaping "
                 "closures, oracle = the full reference interpreter): non-trivial = the REAL trace raises an exception while "
